@@ -124,6 +124,52 @@ def seeded_threading(ctx, shipped):
                               {'env': name, 'seed': seed, 'ops': ops, 'first_difference': k, 'stateful': str(got[k])[:300], 'functional': str(exp[k])[:300]})
 
 
+def rejected_actions(ctx):
+    """an action outside the action space is rejected with ValueError and changes NOTHING: same state, same (memoised) observation object,
+    no randomness consumed -- with a stochastic observation function a dropped memo would show as a re-sampled observation"""
+    r = ctx.rng
+    for k in range(30 if ctx.tier == 'quick' else 300):
+        desc = envs.rand_env(r)
+        desc['actions'] = sorted(r.sample(range(8), r.randint(1, 7)))
+        desc['obs'] = dict(desc['obs'], name=r.choice(['stochastic_raytracing', 'stochastic_raytracing', 'raytracing']))
+        try:
+            env = comp.build_env(desc)
+        except Exception:  # noqa: BLE001
+            continue
+        bad = r.choice([a for a in range(8) if a not in desc['actions']])
+        gvdebug.reset_gv_debug(r.random() < 0.5)
+        try:
+            with impl.Journal(r.randrange(1 << 30)) as j:
+                env._rng = j.own
+                env._state = env._observation = None
+                try:
+                    env.reset()
+                    for a in [r.choice(desc['actions']) for _ in range(r.randint(0, 4))]:
+                        env.step(envs.ACTS[a])
+                    o1 = env.observation
+                    s1 = wire.cstate(env.state)
+                except Exception:  # noqa: BLE001
+                    continue
+                draws = len(j.log)
+                try:
+                    env.step(envs.ACTS[bad])
+                    raised = None
+                except Exception as e:  # noqa: BLE001
+                    raised = type(e).__name__
+                o2 = env.observation
+                case = {'env': desc, 'rejected_action': envs.ACTS[bad].name}
+                ctx.count('rejected action', raised or 'accepted')
+                ctx.case(('rejected', repr(desc), bad, k), True, None)
+                if raised != 'ValueError':
+                    ctx.violation(f'an action outside the action space gave {raised or "no exception"} instead of ValueError', case)
+                elif wire.cstate(env.state) != s1:
+                    ctx.violation('a rejected action changed the state', case)
+                elif o2 is not o1 and (wire.cstate(o2) != wire.cstate(o1) or len(j.log) != draws):
+                    ctx.violation('a rejected action dropped the memoised observation: it was recomputed (consuming randomness)', case)
+        finally:
+            gvdebug.reset_gv_debug(None)
+
+
 def run(ctx):
     r = ctx.rng
     ctx.rule = ('operation sequences (reset / step / read state / read observation; read patterns none, every step, repeated, mixed; mid-episode '
@@ -166,6 +212,7 @@ def run(ctx):
         reqs.append(envs.env_request(desc, debug, ops, tape))
         metas.append((label, desc, ops, debug, outs, log))
     seeded_threading(ctx, shipped)
+    rejected_actions(ctx)
     # the outer environment over the same inner machine: inner and outer operations interleaved on one object stack (model: Gym.v)
     from vt.suites.C20 import check_jobs
     check_jobs(ctx, jobs[::2] if ctx.tier == 'quick' else jobs, ['io', 'io', 'o', 'oi'], length)
